@@ -556,7 +556,14 @@ func runC04Order(c *Ctx) {
 					return len(x.Edges) > 0
 				case *ssa.Call:
 					n := calleeName(x)
-					return strings.HasSuffix(n, "Endian).Uint64")
+					if strings.HasSuffix(n, "Endian).Uint64") {
+						return true
+					}
+					// through a binary.ByteOrder value chosen by the mark
+					if x.Call.IsInvoke() && x.Call.Method.Name() == "Uint64" && strings.HasSuffix(x.Call.Value.Type().String(), "encoding/binary.ByteOrder") {
+						return true
+					}
+					return false
 				}
 				return false
 			}
